@@ -152,10 +152,51 @@ func execC24(c run.Case) (res run.Result) {
 			rootBox[s.ID] = layShapeRect(s)
 		}
 	}
+	rootOf := func(id string) (layRect, bool) {
+		k := strings.Index(id, ".")
+		if k < 0 {
+			return layRect{}, false
+		}
+		rb, ok := rootBox[id[:k]]
+		return rb, ok
+	}
 	for i := range d.Shapes {
 		s := &d.Shapes[i]
-		if k := strings.Index(s.ID, "."); k >= 0 && !inNear(s.ID) {
-			if rb, ok := rootBox[s.ID[:k]]; ok && !rb.ContainsRect(layShapeRect(s), 1) {
+		if inNear(s.ID) {
+			continue
+		}
+		rb, ok := rootOf(s.ID)
+		if !ok {
+			continue
+		}
+		// the descendant's box or its OUTSIDE label (e.g. the label of a sequence-diagram actor
+		// that is wider than the whole diagram) sticks out of the root-level container
+		b := layShapeRect(s)
+		if !rb.ContainsRect(b, 1) {
+			cause = "main-content-overflows-its-root-container"
+		}
+		if s.Label != "" && s.LabelPosition != "" {
+			if pos := label.FromString(s.LabelPosition); pos.IsOutside() {
+				tl := pos.GetPointOnBox(geo.NewBox(geo.NewPoint(b.X, b.Y), b.W, b.H), label.PADDING, float64(s.LabelWidth), float64(s.LabelHeight))
+				if !rb.ContainsRect(layRect{tl.X, tl.Y, float64(s.LabelWidth), float64(s.LabelHeight)}, 1) {
+					cause = "main-content-overflows-its-root-container"
+				}
+			}
+		}
+	}
+	for i := range d.Connections {
+		// … or a route of a nested diagram does (self messages of the last actor)
+		cn := &d.Connections[i]
+		if inNear(cn.Src) || inNear(cn.Dst) {
+			continue
+		}
+		rs, ok1 := rootOf(cn.Src)
+		rd, ok2 := rootOf(cn.Dst)
+		if !ok1 || !ok2 || rs != rd {
+			continue // an edge between root-level subtrees is laid out by the root layout itself
+		}
+		for _, p := range cn.Route {
+			if !rs.Contains(p.X, p.Y, 1) {
 				cause = "main-content-overflows-its-root-container"
 			}
 		}
